@@ -12,6 +12,7 @@ import ast
 from ..engine import AnalysisError, dotted, iter_stmts, norm, walk_expr
 from ..prov import Prov, is_input
 from ..report import Finding
+from .. import consteval
 
 LEVEL_TEXT = (
     "Static who-may-mutate analysis (ast + alias provenance): decides that the process-global reader "
@@ -218,6 +219,56 @@ def run(ctx):
             else:
                 ctx.ok('R-SNIFFAGREE', 'isMine', wsn, 'accepts %d sample first lines the reader accepts, rejects %d it rejects' % (len(accept), len(reject)))
 
+    # R-UNIQNAME: a registered name is never taken again (finite case analysis of the duplicate test of registerreader)
+    ctx.rule('R-UNIQNAME', 'registerreader refuses a name that is already registered, whatever class it comes with')
+    gate = [st for st in rr.body if isinstance(st, ast.If) and any(isinstance(c, ast.Call) and dotted(c.func) == '_readers.insert' for c in ast.walk(st))]
+    wrr = 'src/PseudoNetCDF/%s registerreader' % REG
+    if not gate:
+        ctx.undec('R-UNIQNAME', 'duplicate test', wrr, 'registration not guarded by a recognisable test')
+    else:
+        reg0 = [('a', 'A'), ('b', 'B')]
+        cases = [(('a', 'A'), False), (('a', 'A2'), False), (('c', 'C'), True), (('c', 'A'), True)]
+        wrong = unk = None
+        pn = [a.arg for a in rr.args.args]
+        for (nm, cls_), want in cases:
+            got = consteval.ev(gate[0].test, {'_readers': list(reg0), pn[0]: nm, pn[1]: cls_})
+            if got is consteval.UNK:
+                unk = (nm, cls_)
+            elif bool(got) != want:
+                wrong = (nm, cls_, bool(got))
+                break
+        if wrong:
+            ctx.violation(Finding('R-UNIQNAME', REG, 'registerreader', gate[0], 'with %s registered, registering (%r, %s) is %s: the name then has two entries, the name->reader table keeps one class and the '
+                                  'first-accepting scan meets the other, so auto-detection and format=<name> disagree' % (reg0, wrong[0], wrong[1], 'accepted' if wrong[2] else 'refused')))
+        elif unk:
+            ctx.undec('R-UNIQNAME', 'duplicate test', wrr, 'test outside the evaluated fragment: %s' % norm(gate[0].test)[:60])
+        else:
+            ctx.ok('R-UNIQNAME', 'duplicate test', wrr, 'same name refused with the same or another class; new names accepted')
+    # R-PATHKIND: the suffix preference treats every kind of path alike (str and os.PathLike): only os.path / os.fspath / str() touch the path
+    ctx.rule('R-PATHKIND', 'getreader derives the extension with os.path functions, not with str methods of the path argument (a PathLike raises inside the swallowing try)')
+    bad_ = []
+    for c in ast.walk(g):
+        if isinstance(c, ast.Call) and isinstance(c.func, ast.Attribute) and norm(c.func.value) in ('args[0]', "kwds['path']", 'path') \
+                and c.func.attr in ('rsplit', 'split', 'rpartition', 'partition', 'endswith', 'lower', 'rfind', 'find', 'index', 'strip'):
+            bad_.append(c)
+        if isinstance(c, ast.Subscript) and norm(c.value) in ('args[0]', "kwds['path']") and isinstance(c.slice, ast.Slice):
+            bad_.append(c)
+    if bad_:
+        ctx.violation(Finding('R-PATHKIND', REG, 'getreader', api_stmt(bad_[0]), '%s assumes a str path: for a pathlib.Path it raises inside the try whose except swallows everything, the suffix preference is '
+                              'skipped and another reader wins than for the same path given as str' % norm(bad_[0])[:40]))
+    else:
+        ctx.ok('R-PATHKIND', 'suffix block', 'src/PseudoNetCDF/%s getreader' % REG, 'path argument only passed to os.path functions')
+    # R-PERFILE: the multi-file opener detects every member on its own
+    ctx.rule('R-PERFILE', 'pncmfopen opens every path with the caller\'s keywords unchanged (no format decided from another member)')
+    mf = mod.func('pncmfopen')
+    stores_ = [st for st in iter_stmts(mf.body) if isinstance(st, (ast.Assign, ast.AugAssign)) and any(
+        isinstance(t, ast.Subscript) and isinstance(t.value, ast.Name) and t.value.id == 'kwds' for t in (st.targets if isinstance(st, ast.Assign) else [st.target]))]
+    stores_ += [st for st in iter_stmts(mf.body) if isinstance(st, ast.Expr) and isinstance(st.value, ast.Call) and dotted(st.value.func) in ('kwds.update', 'kwds.setdefault')]
+    if stores_:
+        ctx.violation(Finding('R-PERFILE', REG, 'pncmfopen', stores_[0], 'the keywords handed to every pncopen are changed first (%s): a format detected for one member is imposed on all others, so a member is '
+                              'opened by another reader than when it is opened alone' % norm(stores_[0])[:50]))
+    else:
+        ctx.ok('R-PERFILE', 'pncmfopen', 'src/PseudoNetCDF/%s pncmfopen' % REG, 'kwds passed through unchanged')
     # R-ISMINEPURE
     n_ismine = 0
     anchored = set(['_getreader.py', 'core/_files.py', 'register.py'])
